@@ -77,8 +77,10 @@ CLAIMED = {
          "the variant |data| (strictly decreasing on every back edge: termination), hands only values produced by IndiMessage.from_string to the consumer "
          "(genuineness), raises nothing of its own, and returns with |data| <= threshold when the threshold is enabled; it uses the contracts of "
          "_cleanup_buffer (keeps a suffix; loop invariant over an arbitrary tag list), _cleanup_beginning (drops at least one character) and "
-         "_find_message_in_buffer (nothing or a genuine message with 1 <= end <= |data|; scan loop with variant), each verified on its real body. "
-         "The whole-stream clauses (junk never delays valid neighbours; recovery after a corrupt element) are exercised by a bounded native corpus only.",
+         "_find_message_in_buffer (nothing or a genuine message with 1 <= end <= |data|; scan loop with variant), each verified on its real body; "
+         "recovery is exact: _cleanup_beginning is proved to drop one character and resynchronise at the next known-tag opener, never skipping the start of a later message. "
+         "The whole-stream clauses (junk never delays valid neighbours; delivery after a corrupt element) are exercised by a bounded native corpus (junk x messages x "
+         "truncation at every position of a start tag x fragmentations x thresholds) on every run.",
     note="ASSUMED: ET.fromstring raises only ParseError on Latin-1 text; IndiMessage.from_string raises or returns a message. z3 sequence theory with "
          "cvc5 --strings-exp as second back end (only `unsat` used). The liveness-style clauses are bounded (stand-in), stated in the evidence.",
     technique="contract-based deductive verification: VCs from the real AST (loop invariants, variants, modular helper contracts), z3 + cvc5 for strings; bounded native stand-in for whole-stream clauses",
@@ -89,7 +91,8 @@ CLAIMED = {
          "opener on (any tag list, invariant with the grammar's gap condition); (2) when a complete message text is at the front of the buffer -- whatever "
          "follows -- the scan returns exactly that message and its length, never a proper prefix, never nothing (XML prefix axiom assumed), and otherwise only "
          "genuine messages; (3) process delivers exactly what the scan found, consumes exactly its text, then removes junk, keeps a suffix and terminates. "
-         "Losslessness, order, exactly-once and promptness for a whole fragmented stream follow by induction over the stream; that induction is argued in "
+         "(4) call sites: on the three real receive loops (client tcp, server tcp, tty) every chunk read is appended and the buffer processed before the "
+         "connection waits for more data (loop invariant with ghost flags). Losslessness, order, exactly-once and promptness for a whole fragmented stream follow by induction over the stream; that induction is argued in "
          "DESIGN.md and exercised by a bounded native fragmentation stand-in (every 1-cut, sampled 2-cut, char-by-char, random cuts; 3 thresholds), not discharged by the solver.",
     note="As C11, plus the XML prefix axiom and the stream grammar of the statement as assumptions; the composition over the stream is NOT machine-checked.",
     technique="contract-based deductive verification: VCs from the real AST, string obligations discharged by cvc5 --strings-exp / z3; bounded native stand-in for the stream-level composition",
@@ -104,7 +107,7 @@ CLAIMED = {
          "TCP and TTY receive-loop iteration (decode, buffer, dispatch) raises nothing for any bytes read and hands each message to the router with the connection as sender.",
     note="Trusted: PyVC + encoding; external converters raise only their documented exceptions; user event handlers do not raise; Buffer.process through its C11 contract; "
          "serialisation abstracted (C07).",
-    technique="contract-based deductive verification: exception-freedom and frame VCs from the real AST by symbolic execution, z3",
+    technique="contract-based deductive verification: exception-freedom and frame VCs from the real AST by symbolic execution, z3; bounded native fault catalogue on every run (incl. number texts beyond the float range, which the real-number model cannot see)",
     design="4 C12"),
  "C14": dict(
     category="proof",
@@ -114,7 +117,8 @@ CLAIMED = {
          "top of it, for text, number, light and BLOB elements of a vector of any size, direct assignment, set_value, a client write and a read are executed "
          "symbolically and proved to follow the statement: Write handlers see the old value and the requested payload; a veto changes and publishes nothing; "
          "otherwise the value is stored, exactly one update carrying it is serialised, Change handlers are invoked exactly once with (old, new) iff the value "
-         "changed, in the order Write -> publication -> Change; assignment raises no Write; a read returns the value as refreshed by Read handlers.",
+         "changed, in the order Write -> publication -> Change; assignment raises no Write; a read returns the value as refreshed by Read handlers, and the real element-level "
+         "to_set_message is proved to run every Read handler before the element is published (text, light, switch, BLOB).",
     note="Trusted: PyVC + encoding; abstract handler model; asyncio create_task only records the task; serialisation point abstraction; switch elements are "
          "C09's; BLOB 'changed' is object identity; handler registration (dir() scan, @on) not on the verified path.",
     technique="contract-based deductive verification: loop invariant over a symbolic handler table, ghost invocation counters and ordered trace, z3",
@@ -136,9 +140,9 @@ CLAIMED = {
          "BaseClient.trigger_event is proved with a loop invariant over ANY number of callbacks: exactly the accepting callbacks get the event once, a raising callback neither "
          "escapes nor stops delivery to the rest; onevent appends exactly one config and returns its id, rmonevent removes exactly the configs matching all given criteria "
          "(lists of 0..2, thorough 3, all fields symbolic); at the raising sites an update is proved to raise ValueUpdate/StateUpdate iff the value/state changed, each event's "
-         "old value being the previous value and the last event's new value the current one (unbroken chain, repeated listings included).",
+         "old value being the previous value and the last event's new value the current one (unbroken chain, repeated listings included; all five kinds incl. BLOB).",
     note="Callbacks abstract (may raise, plain or coroutine), no re-entrant (un)registration during dispatch; per-object chain (a redefinition creates new elements); BLOB identity comparison.",
-    technique="contract-based deductive verification: loop invariant over a symbolic callback list, chain obligations at the event-raising sites, z3",
+    technique="contract-based deductive verification: loop invariant over a symbolic callback list, chain obligations at the event-raising sites, z3; bounded native event oracle (listener never stale, filters exact) on every run",
     design="4 C16"),
  "C18": dict(
     category="proof",
